@@ -26,6 +26,10 @@ def do_case(ctx, inp):
     r = copy.deepcopy(o).reduce()
     tr = snap(r)
     ctx.op({"op": "reduce", "t": t}, {"t": tr})
+    if ctx.rng.random() < 0.4:
+        # reduce() leaves the receiver and every model built from it — before or afterwards — alone
+        if kin_probe(ctx, o, lambda m: m.reduce(), "reduced", after_too=True):
+            return
     free = {n: b for n, b in lv.items() if b[0] != b[1]}
     for j in range(inp.get("n_interp", 60 if ctx.quick else 300)):
         I = {}
@@ -57,6 +61,10 @@ def run(ctx):
     n_models = (200 if ctx.quick else 900) * (3 if ctx.search else 1)
     for _ in range(n_models):
         a, o, t = gen_valid(ctx.rng, ctx.quick, prefix_p=0.2, empty_p=0.04)
+        if ctx.rng.random() < 0.15:
+            # the model is the OUTPUT of another operation (assume / reduce / negate / Not / Imply / a JSON, base64, pickle or
+            # deepcopy round trip, one or two of them) applied to a generated valid model
+            a, o, t = gen_derived(ctx.rng, ctx.quick); ctx.tags["derived-model-stream"] += 1
         if ctx.rng.random() < 0.12:
             a, o, t = gen_valid_signed_sum(ctx.rng)     # explicit signs against thresholds of either sign, leaves around zero
         elif ctx.rng.random() < 0.06:
